@@ -369,3 +369,170 @@ def bfs_stream(ctx, pred, flags, nontrivial, quick_depth=6, thorough_depth=9):
                      % (depth, flags, "; ".join(info)), nontrivial)
     st.exhaustive = all("%d scripts" % maxn not in i for i in info)
     return st
+
+
+# ---------------------------------------------------------------------------------------------------
+# end-to-end stream through the REAL ServerBuilder/Server/accept thread/worker threads ("bld")
+#   model side: ocaml/server/driver bld (extracted Model/Srv.v + Model/Builder.v, settled after every op)
+#   implementation side: harness/h_server bld (public API only; real threads, real time, real EMFILE)
+# ---------------------------------------------------------------------------------------------------
+BLD_CHAINS = ["l", "u", "l,u", "b1", "b2", "v,l", "l,b2,u", "u,v", "b2,l", "l,l"]
+
+
+def bld_cases(ctx, n, flags_choices, ws=(1, 2, 3), ls=(1, 2, 3), lens=(8, 14, 20)):
+    reqs = []
+    for _ in range(n):
+        reqs.append("seed=%d;W=%d;L=%d;B=%s;S=%s;len=%d;flags=%s" % (
+            ctx.rng.randrange(10 ** 9), ctx.rng.choice(ws), ctx.rng.choice(ls), ctx.rng.choice(BLD_CHAINS),
+            ctx.rng.choice("at"), ctx.rng.choice(lens), ctx.rng.choice(flags_choices)))
+    p = subprocess.run([DRIVER, "bldgen"], input="\n".join(reqs) + "\n", stdout=subprocess.PIPE, text=True, timeout=600)
+    raw = [l for l in p.stdout.split("\n") if l]
+    assert len(raw) == len(reqs) and not any(l.startswith("DRIVER_ERROR") for l in raw), "bldgen failed: %s" % raw[:2]
+    return bld_annotate(raw)
+
+
+def bld_annotate(raw):
+    """append the model's output as the `exp=` field (the harness waits for the expected number of service calls per op)"""
+    raw = [c.split(";exp=")[0] for c in raw]
+    p = subprocess.run([DRIVER, "bld"], input="\n".join(raw) + "\n", stdout=subprocess.PIPE, text=True, timeout=600)
+    exp = [l for l in p.stdout.split("\n") if l]
+    assert len(exp) == len(raw), "model produced %d results for %d scenarios" % (len(exp), len(raw))
+    return ["%s;exp=%s" % (c, e) for c, e in zip(raw, exp)]
+
+
+def bld_strip(t):
+    return t.split(" | retries=")[0]
+
+
+def bld_parse_case(case):
+    head = case.split(";exp=")[0]
+    f = dict(kv.split("=", 1) for kv in head.split(";"))
+    chain = f["B"].split(",")
+    tok_call = []
+    for i, it in enumerate(chain):
+        tok_call += [i] * (int(it[1:]) if it[0] == "b" else 1)
+    return int(f["W"]), int(f["L"]), tok_call, [o for o in f["ops"].split(" ") if o]
+
+
+def bld_parse_trace(trace):
+    """-> list of (op, [(cid, call, widx)], [in-progress per worker], notes) or None when unparsable"""
+    out = []
+    for s in bld_strip(trace).split(" ; "):
+        if s.startswith("!"):
+            out.append(("", [], [], s))
+            continue
+        m = re.match(r"^(\S+?)=([^/]*)/a([\d.]*)(.*)$", s)
+        if not m:
+            return None
+        served = []
+        for it in m.group(2).split(","):
+            if it:
+                mm = re.match(r"^(\d+)@(-?\d+)w(\d+)$", it)
+                if not mm:
+                    return None
+                served.append((int(mm.group(1)), int(mm.group(2)), int(mm.group(3))))
+        out.append((m.group(1), served, [int(x) for x in m.group(3).split(".") if x], m.group(4)))
+    return out
+
+
+def bld_pred(which):
+    """property predicates on the IMPLEMENTATION's end-to-end trace; `which` selects the clauses (by property id)"""
+    def pred(case, trace):
+        W, L, tok_call, ops = bld_parse_case(case)
+        steps = bld_parse_trace(trace)
+        if steps is None:
+            return "unparsable trace: %s" % trace[:120]
+        cid = 0
+        tok_of = {}
+        served_at = {}
+        finished = set()
+        paused = False
+        backoff = False
+        rr_prev = None
+        for k, (op, served, act, notes) in enumerate(steps):
+            if notes:
+                # '!' notes: a service call that did not start/end within 30 s, an unacknowledged command, a connect error, a second
+                # delivery of one connection, a server that does not stop
+                if "C01" in which or "did-not-start" in notes and ("C03" in which or "C05" in which) or "C05" in which and ("pause" in notes or "resume" in notes):
+                    return "step %d (%s): %s" % (k, op or "end", notes)
+            if not op:
+                continue
+            if op[0] in "cE":
+                cid += 1
+                tok_of[cid] = int(op[1:])
+                if op[0] == "E":
+                    backoff = True
+            elif op[0] == "f":
+                finished.add(int(op[1:]))
+            elif op == "P":
+                paused = True
+            elif op == "R":
+                paused = False
+            elif op[0] == "+":
+                backoff = False
+            for (c, call, w) in served:
+                if "C01" in which:
+                    if c in served_at:
+                        return "step %d (%s): connection %d reached a service call twice" % (k, op, c)
+                    if c not in tok_of:
+                        return "step %d (%s): a service call for unknown connection id %d" % (k, op, c)
+                    if tok_call[tok_of[c]] != call:
+                        return "step %d (%s): connection %d to listener token %d (builder call %d) was handed to the service of builder call %d" % (
+                            k, op, c, tok_of[c], tok_call[tok_of[c]], call)
+                    if w >= W:
+                        return "step %d (%s): connection %d served by worker %d of %d" % (k, op, c, w, W)
+                served_at.setdefault(c, k)
+                if "C05" in which and paused and op != "R":
+                    return "step %d (%s): connection %d dispatched while the server was paused" % (k, op, c)
+            if "C02" in which and any(a > L for a in act):
+                return "step %d (%s): in progress per worker %s, limit %d" % (k, op, act, L)
+            pending = [c for c in tok_of if c not in served_at]
+            if pending and not paused and not backoff and op[0] != "E" and any(a < L for a in act[:W]) and len(act) >= W:
+                if "C03" in which or ("C05" in which and op in ("R",) or "C05" in which and op[0] == "+"):
+                    return "step %d (%s): connection(s) %s wait although the server runs and in progress per worker is %s with limit %d" % (
+                        k, op, pending, act, L)
+            if "C04" in which and served:
+                # round-robin: while no worker is at its limit before the op, consecutive connections go to consecutive workers
+                for (c, call, w) in served:
+                    if rr_prev is not None and rr_prev[1] and all(a < L for a in rr_prev[1]) and len(served) == 1 and L > 1:
+                        exp_w = (rr_prev[0] + 1) % W
+                        if w != exp_w and rr_prev[1][exp_w] < L:
+                            return "step %d (%s): connection %d went to worker %d, the previous one to %d (no worker was at its limit: %s)" % (
+                                k, op, c, w, rr_prev[0], rr_prev[1])
+                    rr_prev = (w, None)
+            if rr_prev is not None:
+                rr_prev = (rr_prev[0], act)
+        return None
+    return pred
+
+
+def bld_stream(ctx, which, flags_choices, n_quick, n_thorough, **kw):
+    n = n_quick if ctx.tier == "quick" else n_thorough
+    cases = bld_cases(ctx, n, flags_choices, **kw)
+    pred = bld_pred(which)
+
+    def monitor(c, i, m):
+        return pred(c, i) is None or pred(c, m) is not None   # a clause the model itself does not satisfy gives no verdict
+
+    def nontrivial(c, m):
+        st = bld_parse_trace(m) or []
+        W, L, _, _ = bld_parse_case(c)
+        return any(a >= L for (_, _, act, _) in st for a in act) or any(op in ("P",) or op[:1] == "E" for (op, _, _, _) in st)
+
+    def shrink(case):
+        head = case.split(";exp=")[0]
+        for c in shrink_ops(head):
+            try:
+                yield bld_annotate([c])[0]
+            except Exception:  # noqa: BLE001  (a shrunk scenario that finishes a connection not in progress is not a scenario)
+                continue
+
+    st = Stream("bld", "bld", cases, compare=lambda i, m: bld_strip(i) == bld_strip(m), monitor=monitor, nontrivial=nontrivial,
+                  shrink=shrink, timeout=900,
+                  describe="%d end-to-end scenarios through the real ServerBuilder/Server (public API, real accept and worker threads, TCP and Unix "
+                           "listeners via listen/bind/bind_uds/listen_uds, actix System and plain Tokio runtimes, pause/resume, real EMFILE via "
+                           "RLIMIT_NOFILE); after each op the set of service calls that started (connection id, listener's service, worker index) and "
+                           "the in-progress count per worker are compared with the settled model (extracted Srv.v + Builder.v)" % n)
+    st.per_shard = 2   # a scenario takes about a second of real time
+    st.prepare = lambda c: bld_annotate([c])[0]
+    return st
